@@ -10,6 +10,7 @@ package props
 
 import (
 	"fmt"
+	"strings"
 	"sync"
 	"sync/atomic"
 	"time"
@@ -141,7 +142,7 @@ func (c11) Run(c *wk.Case) {
 	var p *gen.Program
 	if c.Index%4 == 3 {
 		// constant containers used by operations that depend on the arguments (as in C10)
-		p = c10ConstProgram(c.Rng)
+		p = c10ConstProgram(c.Rng, false)
 		prog, argNames = p.Root, p.ArgNames
 	} else if c.Index%4 != 2 {
 		var types []*gen.Ty
@@ -241,7 +242,10 @@ func (c11) Run(c *wk.Case) {
 			if iso := jobs[i].iso; iso != nil {
 				bad := (iso.Err == nil) != (outs[i].Err == nil)
 				why := ""
-				if !bad && iso.Err == nil {
+				// values are compared only if the program has no construct whose order the documentation leaves
+				// open (then two correct evaluations may differ): there only ok-vs-error is compared
+				orderOpen := strings.Contains(src, "groupBy") || strings.Contains(src, "unique") || strings.Contains(src, ".eval()")
+				if !bad && iso.Err == nil && !orderOpen {
 					ok, d := realEqual(iso.Val, outs[i].Val, false, "")
 					bad, why = !ok, d
 				}
